@@ -222,7 +222,7 @@ def run(tier):
 
     # 4. drift: Model prediction vs observation (inside the Contract, never a verdict) ----
     # (xlookup events are the driver's own additions after a step, not steps of the schedule)
-    for exp, obs in zip(expected, [e for e in events if e["e"] not in ("xlookup", "unwound")]):
+    for exp, obs in zip(expected, [e for e in events if e["e"] not in ("xlookup", "unwound", "sbxcycle")]):
         if exp is None:
             continue
         for k in ("out", "t"):
